@@ -37,3 +37,17 @@ for d in sorted(glob.glob(os.path.join(VERIF, "seeded", "*"))):
 print("| change | files | what it does | result of the quick check(s) |")
 print("|---|---|---|---|")
 print("\n".join(rows))
+
+
+def write_into_design():
+    """replace the table between the seedtable markers of DESIGN.md"""
+    p = os.path.join(VERIF, "DESIGN.md")
+    s = open(p).read()
+    b, e = "<!-- seedtable:begin -->", "<!-- seedtable:end -->"
+    i, j = s.index(b) + len(b), s.index(e)
+    t = "\n".join(["| change | files | what it does | result of the quick check(s) |", "|---|---|---|---|"] + rows) + "\n"
+    open(p, "w").write(s[:i] + "\n" + t + s[j:])
+
+
+if "--write" in sys.argv:
+    write_into_design()
